@@ -12,11 +12,11 @@ Open Scope N_scope.
 Lemma C06_refuted : forall B, exists x,
   b_rt (e_b x) = B /\ polls_needed_rt x = S B /\ queue_after x <> [] /\ KnownClass x.
 Proof.
-  intros B. exists (fanout false {| b_local := 0; b_rt := B; b_coop := 0 |} 0 (S B)).
-  destruct (fanout_rt 0 B 0 0) as [_ [H2 H3]]. cbn zeta in *.
+  intros B. exists (fanout false {| b_local := 0; b_rt := B; b_coop := 0 |} 31 (S B)).
+  destruct (fanout_rt 0 B 0 31) as [_ [H2 H3]]. cbn zeta in *.
   split; [reflexivity|]. split; [exact H2|].
-  assert (Hq : queue_after (fanout false {| b_local := 0; b_rt := B; b_coop := 0 |} 0 (S B)) <> [])
-    by (rewrite H3; discriminate).
+  assert (Hq : queue_after (fanout false {| b_local := 0; b_rt := B; b_coop := 0 |} 31 (S B)) <> [])
+    by (intros E; rewrite E in H3; discriminate).
   split; [exact Hq|apply leftover_known; exact Hq].
 Qed.
 
@@ -24,11 +24,11 @@ Qed.
 Lemma C06_refuted_local : forall B, exists x,
   b_local (e_b x) = B /\ polls_needed_local x = S B /\ queue_after x <> [] /\ KnownClass x.
 Proof.
-  intros B. exists (fanout true {| b_local := B; b_rt := 0; b_coop := 0 |} 0 (S B)).
-  destruct (fanout_local B 0 0 0) as [H1 [_ H3]]. cbn zeta in *.
+  intros B. exists (fanout true {| b_local := B; b_rt := 0; b_coop := 0 |} 31 (S B)).
+  destruct (fanout_local B 0 0 31) as [H1 [_ H3]]. cbn zeta in *.
   split; [reflexivity|]. split; [exact H1|].
-  assert (Hq : queue_after (fanout true {| b_local := B; b_rt := 0; b_coop := 0 |} 0 (S B)) <> [])
-    by (rewrite H3; discriminate).
+  assert (Hq : queue_after (fanout true {| b_local := B; b_rt := 0; b_coop := 0 |} 31 (S B)) <> [])
+    by (intros E; rewrite E in H3; discriminate).
   split; [exact Hq|apply leftover_known; exact Hq].
 Qed.
 
@@ -50,7 +50,7 @@ Proof. exact coop_budget_defers. Qed.
 Definition tokio_budgets : budgets := {| b_local := 61; b_rt := 61; b_coop := 128 |}.
 
 Lemma C06_as_stated_refuted :
-  let log := run_model tokio_budgets (idle_tasks false 62 ++ []) [(5, spawn_all 62); (7, [])] in
+  let log := run_model tokio_budgets 31 (idle_tasks false 62) [] [(5, false, [], spawn_all 62); (7, false, [], [])] in
   In (RPoll 61 5 12) log /\ ~ polls_timely log.
 Proof.
   cbn zeta. split; [vm_compute; tauto|].
@@ -63,6 +63,6 @@ Qed.
    receive happens at the next event *)
 Lemma C06_coop_as_stated_refuted :
   let ts := [(true, repeat Recv 129 ++ [Log])] in
-  let log := run_model tokio_budgets ts [(5, repeat (ASend 0) 129 ++ [Spawn 0]); (7, [])] in
+  let log := run_model tokio_budgets 31 ts [] [(5, false, [], repeat (ASend 0) 129 ++ [Spawn 0]); (7, false, [], [])] in
   In (RPoll 0 5 12) log /\ In (ROp 0 12) log.
 Proof. cbn zeta. split; vm_compute; tauto. Qed.
